@@ -56,6 +56,7 @@ func cmdRun(args []string) {
 	known := fs.String("known", "", "comma separated known classes")
 	params := fs.String("params", "", "k=v,k=v harness parameters")
 	solver := fs.String("solver", "z3", "z3|z3-new|cvc5")
+	summ := fs.String("summarize", "", "comma separated functions to summarise")
 	fs.Parse(args)
 	sh, err := symex.Load(repoDir(), verifDir()+"/harness")
 	if err != nil {
@@ -74,6 +75,11 @@ func cmdRun(args []string) {
 		if p := strings.SplitN(kv, "=", 2); len(p) == 2 {
 			n, _ := strconv.Atoi(p[1])
 			sh.Params[p[0]] = n
+		}
+	}
+	for _, k := range strings.Split(*summ, ",") {
+		if k != "" {
+			sh.Summarize[k] = true
 		}
 	}
 	path := symex.ModulePath
